@@ -368,7 +368,7 @@ Inductive kind :=
 | KAddPath | KAddDict | KAddFrame | KAddPolars            (* extend an existing tree by paths       *)
 | KNameDict | KNameFrame | KNamePolars.                   (* attributes by node name                *)
 
-Record input := In {
+Record input := MkIn {
   i_sep : str;  i_dup : bool;
   i_tree : tree;  i_tsep : str;    (* the existing tree (root) and its separator; add_* kinds only *)
   i_start : pos;                   (* the node object handed over as `tree`                        *)
@@ -477,7 +477,7 @@ Definition frame_of_rows (rows : list row) : list row :=
   map (fun r => (fst r, map (fun c => (c, match attr_get (snd r) c with Some v => v | None => VNone end))
                             cols)) rows.
 Definition with_rows (i : input) (rows : list row) : input :=
-  In (i_sep i) (i_dup i) (i_tree i) (i_tsep i) (i_start i) (i_pcol i) rows.
+  MkIn (i_sep i) (i_dup i) (i_tree i) (i_tsep i) (i_start i) (i_pcol i) rows.
 Definition eff_input (k : kind) (i : input) : input :=
   if is_dict_kind k then with_rows i (dict_of_rows (i_rows i))
   else if is_frame_kind k then with_rows i (frame_of_rows (i_rows i))
